@@ -104,11 +104,28 @@ def examine(prop, r, mobs, mbits):
         for k, b in enumerate(mbits):
             if not b:
                 continue
-            for pi in range(len(b) // 3):
-                sbit, pbit = b[3 * pi], b[3 * pi + 1]
+            # per pool: slot, phase, not-lost, registries, life cycle + groups, map books, accounting, flush, wake-up
+            # (pools separated by '.'; the first three only in the old format)
+            groups = b[3:].split(".") if b.startswith("v2:") else [b[3 * i:3 * i + 3] for i in range(len(b) // 3)]
+            for pi, g in enumerate(groups):
+                if len(g) < 3:
+                    continue
+                sbit, pbit = g[0], g[1]
                 limit = stop.get(pi)
-                if pbit == "0" or (sbit == "0" and (limit is None or k < limit)):
-                    fails.append({"kind": "invbit", "step": k, "detail": f"pool {pi} bits {sbit}{pbit}"})
+                fixed = limit is None or k < limit
+                bad = pbit == "0" or (sbit == "0" and fixed)
+                if len(g) >= 9:
+                    names = ["slot", "phase", "lost", "registries", "life-cycle", "map-books", "accounting", "flush", "wake-up"]
+                    for idx in (3, 4, 5, 6, 7):
+                        if g[idx] == "0":
+                            bad = True
+                    if g[8] == "0" and fixed:
+                        bad = True
+                    detail = f"pool {pi} bits {g} (" + ",".join(n for n, c in zip(names, g) if c == "0") + ")"
+                else:
+                    detail = f"pool {pi} bits {sbit}{pbit}"
+                if bad:
+                    fails.append({"kind": "invbit", "step": k, "detail": detail})
                     break
             else:
                 continue
